@@ -51,6 +51,18 @@ func init() {
 		RequiredProbes: []string{"reads_overlapping_a_write", "porcupine_ok", "history_ops", "truncations"},
 		QuickS:         50, ThoroughS: 900,
 	}
+	propSpecs["C11"] = &PropSpec{
+		ID: "C11",
+		Rule: "each run = a valid directory produced by a seeded fault-free plan (4-18 operations: appends with rotation, truncations, reopens), closed, then ONE damage drawn from the tape: bit flip / zero run / truncation to any length incl. below the 32-byte header / garbage extension / frame length-field edit (0xffffffff, 64MiB+1, file size, ...) / frame-type edit / index-entry edit / CRC edit / header field edit / whole-file random bytes / another segment's file / file deletion / garbage right after the last commit, at positions weighted to headers, frame headers, commit frames, the index block and payloads, on tail and sealed segments; or a tampered metadata record (invalid JSON, reordered list, IndexStart / MinIndex / MaxIndex / BaseIndex / Codec / SealTime / NextSegmentID edits). " +
+			"Then Open, FirstIndex/LastIndex, GetLog over the whole range, Close, Filer.DumpLogs, Filer.DumpSegment of every file, and BinaryCodec.Decode of every payload found plus structural mutations of valid encodings (strict prefix, overflowing varint, length prefix past the buffer, random bytes). " +
+			"Oracles: no panic; bounded work (file reads per call <= 4*bytes/8+2000, so an endless scan is a deterministic overrun); bounded allocation (largest ReadAt buffer <= max(files, MaxEntrySize)+64KiB; TotalAlloc growth of Open/Dump bounded); Open must fail when a sealed segment is missing, shorter than its header or carries another segment's header; a failed Open leaves zero open handles and a closed metadata store; Decode errors on structural damage. " +
+			"Non-trivial = damage applied; distinct = (damage kind, sealed/tail, outcome of Open).",
+		Components:     compA,
+		Assumptions:    []string{"a flipped bit inside an entry payload legitimately decodes to a different log (the format has no per-record checksum; README says so): no error is demanded there", "the 'second Open does not block' clause is checked as 'metadata store closed + zero handles after a failed Open' on the simulated store; the real bolt flock is exercised by the C12 codec-identity runs"},
+		RequiredProbes: []string{"open_rejected_damage", "open_accepted_damage", "payloads_decoded", "decode_mutations"},
+		RequiredFired:  []string{"corrupt_bitflip", "corrupt_truncate", "corrupt_length-field", "corrupt_delete-file", "corrupt_other-segments-file", "corrupt_header-field", "corrupt_index-entry"},
+		QuickS:         45, ThoroughS: 600,
+	}
 	propSpecs["C14"] = &PropSpec{
 		ID: "C14",
 		Rule: "each run = a seeded WAL with 1-4 batches (so several segments exist and a rotation may be pending), then a tape-chosen set of racing tasks - an appender (2-6 batches), 0-3 readers (GetLog/FirstIndex/LastIndex), a stable-store client - and the closer, which calls Close after a tape-chosen number of scheduling steps; the scheduler orders Close's flag swap, lock acquisition, state swap and finalizer against every other task's hook points (after each closed-check, between state load and reference, before each lock / rotation wait) and seam calls. " +
